@@ -74,10 +74,14 @@ func (db *DB) handleSubscription(ctx context.Context, r *request.Request) (<-cha
 				continue
 			}
 
-			p := planner.New(ctx, identity.FromContext(ctx), db.documentACP, db)
-			s := subRequest.ToSelect(evt.DocID, evt.Cid.String())
+			// (a failed lookup of the collection is reported to the subscriber below)
+			var result map[string]any
+			if err == nil {
+				p := planner.New(ctx, identity.FromContext(ctx), db.documentACP, db)
+				s := subRequest.ToSelect(evt.DocID, evt.Cid.String())
 
-			result, err := p.RunSelection(ctx, s)
+				result, err = p.RunSelection(ctx, s)
+			}
 			if err == nil && isEmptySelectionResult(result) {
 				txn.Discard(ctx)
 				continue // Don't send anything back to the client if the request yields an empty dataset.
